@@ -50,8 +50,9 @@ func (C14) Generate(r *core.Rand, tier string, idx int) *core.Scenario {
 		}
 	}
 	sc.Cfg["delim"] = d
-	for _, k := range []string{"badren", "recchild", "inboxmid", "utf7ref", "resub", "chain"} {
-		if r.P(1, 12) {
+	// input classes whose defects were repaired (see known_findings.json): in half of the runs
+	for _, k := range []string{"badren", "recchild", "chain", "resub", "inboxmid", "utf7ref"} {
+		if r.P(1, 2) {
 			sc.Cfg[k] = 1
 		}
 	}
@@ -189,6 +190,8 @@ func (c *c14Run) name(a core.Action, off int, base string, emptyOK, trailOK bool
 		} else {
 			n += c.d + c.d
 		}
+	case fl == 4 && emptyOK:
+		n = ""
 	}
 	return n
 }
